@@ -60,6 +60,11 @@ func walShapes(thorough bool) []walShape {
 		{"bigkey", M + 10, 7, false},
 		{"bigkey-del", M + 10, 0, true},
 		{"key=first-frag", M - 13, 4, false},
+		// a fragmented entry's first fragment holds the header and key only; what follows (rest of the key,
+		// value length, value) is cut into M-byte fragments: exact multiples of M behind the first fragment
+		{"rem=M", 8, M - 4, false},
+		{"rem=2M", 8, 2*M - 4, false},
+		{"del-rem=M", M - 13 + M, 0, true},
 	}
 	if thorough {
 		s = append(s,
@@ -67,6 +72,9 @@ func walShapes(thorough bool) []walShape {
 			walShape{"key=first-frag+1", M - 12, 4, false},
 			walShape{"del-rec=", M - 13, 0, true},
 			walShape{"del-rec+1", M - 12, 0, true},
+			walShape{"rem=M-1", 8, M - 5, false},
+			walShape{"rem=M+1", 8, M - 3, false},
+			walShape{"rem=2M+1", 8, 2*M - 3, false},
 		)
 	}
 	return s
@@ -337,7 +345,7 @@ func init() {
 	fw.Register(&fw.Check{
 		ID:    "C09",
 		Level: "model_checking",
-		Rule: "all programs up to depth 3 (4 thorough) over the alphabet {append of 10 (14) key/value shapes on the record-format boundaries (payload 32767/32768/32769, 2 fragments+1, key longer than the first fragment, fragmented delete, empty value), 5 (6) batches incl. totals 64KiB-1/64KiB/64KiB+1, rotate, reopen} with <=1 (2) rotate/reopen, under sync modes immediate and none; oracle: ReplayWALDir == appended list (type,key,value,seq) and GetEntriesFrom(s) for every s in [0,max+2]; non-trivial = programs with >=2 symbols",
+		Rule: "all programs up to depth 3 (4 thorough) over the alphabet {append of 13 (20) key/value shapes on the record-format boundaries (payload 32767/32768/32769, 2 fragments+1, data behind the first fragment exactly 1x / 2x the fragment size for puts and a delete, key longer than the first fragment, fragmented delete, empty value), 5 (6) batches incl. totals 64KiB-1/64KiB/64KiB+1, rotate, reopen} with <=1 (2) rotate/reopen, under sync modes immediate and none; oracle: ReplayWALDir == appended list (type,key,value,seq) and GetEntriesFrom(s) for every s in [0,max+2]; non-trivial = programs with >=2 symbols",
 		Assumptions: []string{"sequence hand-over at rotation is done by the harness as the engine is supposed to do it (UpdateNextSequence)", "file names come from the real clock; two files created in the same nanosecond are not modelled"},
 		Units: func(tier string) []string {
 			var us []string
